@@ -211,30 +211,38 @@ class InotifyEmitter(EventEmitter):
 
         # Always listen to delete self
         event_mask = InotifyConstants.IN_DELETE_SELF
+        if self.watch.is_recursive:
+            # Whatever is filtered, a recursive watch has to notice directories being
+            # created in, moved into, renamed in or moved out of the tree to follow them.
+            event_mask |= InotifyConstants.IN_CREATE | InotifyConstants.IN_MOVE
 
-        for cls in self._event_filter:
-            if cls in {DirMovedEvent, FileMovedEvent}:
-                event_mask |= InotifyConstants.IN_MOVE
-            elif cls in {DirCreatedEvent, FileCreatedEvent}:
-                event_mask |= InotifyConstants.IN_MOVE | InotifyConstants.IN_CREATE
-            elif cls is DirModifiedEvent:
-                event_mask |= (
-                    InotifyConstants.IN_MOVE
-                    | InotifyConstants.IN_ATTRIB
-                    | InotifyConstants.IN_MODIFY
-                    | InotifyConstants.IN_CREATE
-                    | InotifyConstants.IN_CLOSE_WRITE
-                )
-            elif cls is FileModifiedEvent:
-                event_mask |= InotifyConstants.IN_ATTRIB | InotifyConstants.IN_MODIFY
-            elif cls in {DirDeletedEvent, FileDeletedEvent}:
-                event_mask |= InotifyConstants.IN_DELETE
-            elif cls is FileClosedEvent:
-                event_mask |= InotifyConstants.IN_CLOSE_WRITE
-            elif cls is FileClosedNoWriteEvent:
-                event_mask |= InotifyConstants.IN_CLOSE_NOWRITE
-            elif cls is FileOpenedEvent:
-                event_mask |= InotifyConstants.IN_OPEN
+        # The native events each concrete event class can originate from. A move out of (into) the
+        # watched tree is reported as deleted (created), and only both halves of a move tell it
+        # from a rename inside the tree, hence IN_MOVE as a whole wherever one half matters.
+        event_masks: dict[type[FileSystemEvent], int] = {
+            DirMovedEvent: InotifyConstants.IN_MOVE,
+            FileMovedEvent: InotifyConstants.IN_MOVE,
+            DirCreatedEvent: InotifyConstants.IN_MOVE | InotifyConstants.IN_CREATE,
+            FileCreatedEvent: InotifyConstants.IN_MOVE | InotifyConstants.IN_CREATE,
+            DirDeletedEvent: InotifyConstants.IN_MOVE | InotifyConstants.IN_DELETE,
+            FileDeletedEvent: InotifyConstants.IN_MOVE | InotifyConstants.IN_DELETE,
+            DirModifiedEvent: (
+                InotifyConstants.IN_MOVE
+                | InotifyConstants.IN_ATTRIB
+                | InotifyConstants.IN_MODIFY
+                | InotifyConstants.IN_CREATE
+                | InotifyConstants.IN_DELETE
+                | InotifyConstants.IN_CLOSE_WRITE
+            ),
+            FileModifiedEvent: InotifyConstants.IN_ATTRIB | InotifyConstants.IN_MODIFY,
+            FileClosedEvent: InotifyConstants.IN_CLOSE_WRITE,
+            FileClosedNoWriteEvent: InotifyConstants.IN_CLOSE_NOWRITE,
+            FileOpenedEvent: InotifyConstants.IN_OPEN,
+        }
+        for event_cls, mask in event_masks.items():
+            # A filter class selects the events that are instances of it (base classes included).
+            if any(issubclass(event_cls, cls) for cls in self._event_filter):
+                event_mask |= mask
 
         return event_mask
 
